@@ -6,7 +6,8 @@ to_array_types to_dict` (`utype/utils/transform.py:195-662`), the generic argume
 
 Hand-written, branch for branch, on the inputs JSON can deliver (null, bool, int, float, str, array,
 object).  Branches that JSON values reach only outside a round trip (query-string / literal_eval
-guessing, timestamps, `Optional[...]` = the three-stage union parse of C09) answer `unmodelled`.
+guessing, timestamps) answer `unmodelled`.  `Optional[T]` runs the union stages of `logical_parse`
+under the three converter preferences (`Mode`).
 
 Text is `List Char`.  The *formatters* that the encoders call (`isoformat`, `str(int)`,
 `"{:02d}".format`) are modelled concretely (fixed-width decimal digits); the *parsers* and the
@@ -192,6 +193,20 @@ structure Cfg where
   decTiny : Bool        -- from_decimal writes Decimals below the normal float range as strings (encode.py:147-149)
   enumValueFirst : Bool -- to_enum prefers a member's value over another member's name (transform.py:656-663)
   deriving DecidableEq, Repr
+
+/-- the converter preferences a conversion runs under: the defaults, `Options(no_data_loss=True)` and
+`Options(no_data_loss=True, no_explicit_cast=True)` — the union stages of `logical_parse` (rule.py:375-420) -/
+inductive Mode where
+  | lenient | noloss | strict
+  deriving DecidableEq, Repr
+
+def Mode.noExplicitCast : Mode → Bool
+  | .strict => true
+  | _ => false
+
+def Mode.noDataLoss : Mode → Bool
+  | .lenient => false
+  | _ => true
 
 def Cfg.fixed : Cfg := ⟨true, true, true, true⟩
 def Cfg.legacy : Cfg := ⟨false, false, false, false⟩
@@ -400,6 +415,8 @@ def NULL_VALUES : List Str := ["null".toList, "none".toList, "nil".toList]
 def FALSE_VALUES : List Str := ["0".toList, "false".toList, "no".toList, "off".toList, "f".toList]
 def TRUE_VALUES : List Str := ["1".toList, "true".toList, "yes".toList, "on".toList, "t".toList, "y".toList]
 
+def midnight : Clock := ⟨0, 0, 0, 0⟩
+
 /-- the `for f in formats: try: return strptime(data, f + suffix) except: continue` loops -/
 def firstFormat (P : Prims) (s suffix : Str) : List Str → Option DateTime
   | [] => none
@@ -425,10 +442,11 @@ def toDatetime (cfg : Cfg) (P : Prims) (dateFirst : Bool) (data : Str) : Res Dat
       if P.floatParses data then .unmodelled "datetime from a numeric string (timestamp)"
       else .perr                                            -- TypeError('invalid datetime')
 
-/-- `to_date(data: str)`, transform.py:491-506 (`no_data_loss` off) -/
-def toDate (cfg : Cfg) (P : Prims) (data : Str) : Res Date := do
+/-- `to_date(data: str)`, transform.py:491-506 -/
+def toDate (cfg : Cfg) (m : Mode) (P : Prims) (data : Str) : Res Date := do
   let dt ← toDatetime cfg P true data
-  pure dt.date
+  if m.noDataLoss && !(dt.clock == midnight) then .perr     -- "got time part"
+  else pure dt.date
 
 /-- `to_time(data: str)`, transform.py:603-620 -/
 def toTime (cfg : Cfg) (P : Prims) (data : Str) : Res TimeV :=
@@ -441,8 +459,9 @@ def toTime (cfg : Cfg) (P : Prims) (data : Str) : Res TimeV :=
   else .perr
 
 /-- `to_timedelta(data: str)`, transform.py:561-601 -/
-def toTimedelta (P : Prims) (data : Str) : Res Int :=
-  if P.floatParses data then .unmodelled "timedelta from a numeric string"
+def toTimedelta (m : Mode) (P : Prims) (data : Str) : Res Int :=
+  -- to_float(str) raises under no_explicit_cast and the code moves on to the patterns
+  if !m.noExplicitCast && P.floatParses data then .unmodelled "timedelta from a numeric string"
   else if P.reDuration0 data then .unmodelled "DURATION_REGS[0]"
   else match P.reDurationIso data with
     | some g =>
@@ -451,7 +470,8 @@ def toTimedelta (P : Prims) (data : Str) : Res Int :=
       | some t => .ok (sign * t)
       | none => .perr
     | none =>
-      match P.timeFromIso data with
+      if m.noExplicitCast then .perr                        -- ValueError("Invalid timedelta")
+      else match P.timeFromIso data with
       | some t => .ok ((((t.clock.h * 60 + t.clock.mi) * 60 + t.clock.s) * 1000000 + t.clock.us : Nat) : Int)
       | none => .perr
 
@@ -463,24 +483,28 @@ def Dec.toInt? : Dec → Option Int
   | _ => none
 
 /-- `to_integer(data: str)`, transform.py:401-435 (dict keys arrive as strings) -/
-def toIntegerStr (P : Prims) (s : Str) : Res Int :=
-  if s.isEmpty then .ok 0                                   -- _attempt_from_number: `not data` → 0
+def toIntegerStr (m : Mode) (P : Prims) (s : Str) : Res Int :=
+  if m.noExplicitCast then .perr                            -- a str is not (int, float, Decimal): TypeError
+  else if s.isEmpty then .ok 0                              -- _attempt_from_number: `not data` → 0
   else if FALSE_VALUES.contains (lower s) then .ok 0
   else if TRUE_VALUES.contains (lower s) then .ok 1
   else match P.decOfStr s with
     | none => .perr
-    | some d => match d.toInt? with
+    | some d =>
+      -- no_data_loss: finite and `not exponent`
+      if m.noDataLoss && !(match d with | .fin _ _ e => e == 0 | _ => false) then .perr
+      else match d.toInt? with
       | some i => .ok i
       | none => .perr
 
 /-- `to_decimal`, transform.py:437-449 -/
-def toDecimal (P : Prims) : Js → Res Dec
-  | .null => .ok (.fin false 0 0)                           -- `not data` → 0
-  | .bool b => if b then .perr else .ok (.fin false 0 0)    -- Decimal('True') is invalid; False → 0
+def toDecimal (m : Mode) (P : Prims) : Js → Res Dec
+  | .null => if m.noExplicitCast then .perr else .ok (.fin false 0 0)     -- `not data` → 0
+  | .bool b => if m.noExplicitCast || b then .perr else .ok (.fin false 0 0)  -- Decimal('True') is invalid; False → 0
   | .int i => .ok (.fin (decide (i < 0)) i.natAbs 0)
-  | .float f => if f.isZero then .ok (.fin false 0 0) else .ok (P.decOfFloat f)
+  | .float f => if !m.noExplicitCast && f.isZero then .ok (.fin false 0 0) else .ok (P.decOfFloat f)
   | .str s =>
-    if s.isEmpty then .ok (.fin false 0 0)
+    if !m.noExplicitCast && s.isEmpty then .ok (.fin false 0 0)
     else match P.decOfStr (strip s) with
       | some d => .ok d
       | none => .perr
@@ -491,7 +515,7 @@ def findIdx? {α : Type} (p : α → Bool) : List α → Option Nat
   | x :: xs => if p x then some 0 else (findIdx? p xs).map (· + 1)
 
 /-- `to_enum`, transform.py:649-668: member number for a JSON scalar -/
-def toEnum (cfg : Cfg) (decl : EnumDecl) (j : Js) : Res Nat :=
+def toEnum (cfg : Cfg) (m : Mode) (decl : EnumDecl) (j : Js) : Res Nat :=
   let byValue (v : EVal) : Option Nat := findIdx? (fun m => m.2 == v) decl.members
   let byName (s : Str) : Option Nat := findIdx? (fun m => m.1 == s) decl.members
   let conv (v : EVal) : Res Nat :=
@@ -501,10 +525,13 @@ def toEnum (cfg : Cfg) (decl : EnumDecl) (j : Js) : Res Nat :=
     | .int, .int i => match byValue (.int i) with | some i => .ok i | none => .perr
     | .str, .str s => match byValue (.str s) with | some i => .ok i | none => .perr
     | _, _ => .unmodelled "enum mixin conversion"
+  let strictly (v : EVal) : Res Nat := match byValue v with | some i => .ok i | none => .perr   -- `return t(data)`
   match j with
-  | .int i => conv (.int i)
+  | .int i => if m.noExplicitCast then strictly (.int i) else conv (.int i)
   | .str s =>
-    match byName s with
+    if m.noExplicitCast then strictly (.str s)
+    else if m.noDataLoss then conv (.str s)                  -- names are looked up in the lenient mode only
+    else match byName s with
     | some n =>
       if cfg.enumValueFirst then
         match decl.mixin, byValue (.str s) with
@@ -519,11 +546,6 @@ def Js.isContainer : Js → Bool
   | .arr _ => true
   | .obj _ => true
   | _ => false
-
-/-- `dict.__setitem__` on an association list kept in insertion order -/
-def assocSet {α β : Type} [BEq α] (k : α) (v : β) : List (α × β) → List (α × β)
-  | [] => [(k, v)]
-  | (k', v') :: r => if k' == k then (k', v) :: r else (k', v') :: assocSet k v r
 
 def lookup {β : Type} (k : Str) : List (Str × β) → Option β
   | [] => none
@@ -619,18 +641,29 @@ def parseMapWith (fk : Str → Res Key) (fv : Js → Res Val) : List (Str × Js)
       | some kv => (key, kv.2) :: rest.filter (fun kv => !(kv.1 == key))
       | none => (key, v) :: rest)
 
-def parseKey (P : Prims) : KeyTy → Str → Res Key
+def parseKey (m : Mode) (P : Prims) : KeyTy → Str → Res Key
   | .str, s => .ok (.str s)
-  | .int, s => do pure (.int (← toIntegerStr P s))
+  | .int, s => do pure (.int (← toIntegerStr m P s))
+
+/-- `to_null`, transform.py:195-204 -/
+def toNull (m : Mode) : Js → Res Val
+  | .null => .ok .none
+  | .str s => if !m.noExplicitCast && NULL_VALUES.contains (lower s) then .ok .none else .perr
+  | _ => .perr
+
+/-- `try: … except: collect` of the union stages: the first conversion that succeeds wins -/
+def orElse {α : Type} (a : Res α) (b : Unit → Res α) : Res α :=
+  match a with
+  | .ok v => .ok v
+  | .perr => b ()
+  | .unmodelled w => .unmodelled w
 
 mutual
-/-- `transformer(value, T)` for a declared field type `T` on a JSON value: exact-type shortcut
-(transform.py:713-715), registry dispatch, `Rule.parse` for generics (rule.py:1682-1749) -/
-def parse (cfg : Cfg) (P : Prims) : Ty → Js → Res Val
-  | .none, j => match j with
-    | .null => .ok .none
-    | .str s => if NULL_VALUES.contains (lower s) then .ok .none else .perr     -- to_null
-    | _ => .perr
+/-- `transformer(value, T)` for a declared field type `T` on a JSON value, under the preferences `m`:
+exact-type shortcut (transform.py:713-715), registry dispatch, `Rule.parse` for generics (rule.py:1682-1749),
+`logical_parse` for `Optional[T]` (rule.py:375-420) -/
+def parse (cfg : Cfg) (P : Prims) (m : Mode) : Ty → Js → Res Val
+  | .none, j => toNull m j
   | .bool, j => match j with
     | .bool b => .ok (.bool b)
     | _ => .unmodelled "bool from a non-bool"
@@ -647,9 +680,9 @@ def parse (cfg : Cfg) (P : Prims) : Ty → Js → Res Val
   | .bytes, j => match j with
     | .str s => .ok (.bytes (P.utf8Encode s))               -- to_bytes: data.encode()
     | _ => .unmodelled "bytes from a non-str"
-  | .dec, j => do pure (.dec (← toDecimal P j))
+  | .dec, j => do pure (.dec (← toDecimal m P j))
   | .date, j => match j with
-    | .str s => do pure (.date (← toDate cfg P s))
+    | .str s => do pure (.date (← toDate cfg m P s))
     | .null => .perr
     | _ => .unmodelled "date from a number/container"
   | .datetime, j => match j with
@@ -660,44 +693,56 @@ def parse (cfg : Cfg) (P : Prims) : Ty → Js → Res Val
     | .str s => do pure (.time (← toTime cfg P s))
     | _ => .unmodelled "time from a non-str"
   | .delta, j => match j with
-    | .str s => do pure (.delta (← toTimedelta P s))
+    | .str s => do pure (.delta (← toTimedelta m P s))
     | _ => .unmodelled "timedelta from a non-str"
   | .uuid, j => match j with
     | .str s => match P.uuidOfStr s with                    -- to_uuid: t(data)
       | some n => .ok (.uuid n)
       | none => .perr
     | _ => .unmodelled "UUID from a non-str"
-  | .enum decl, j => do pure (.enum decl (← toEnum cfg decl j))
+  | .enum decl, j => do pure (.enum decl (← toEnum cfg m decl j))
   | .list t, j => match j with
-    | .arr xs => do pure (.list (← mapRes (parse cfg P t) xs))   -- to_array_types: isinstance(data, list)
+    | .arr xs => do pure (.list (← mapRes (parse cfg P m t) xs))   -- to_array_types: isinstance(data, list)
     | _ => .unmodelled "list from a non-array"
   | .set t, j => match j with
     | .arr xs =>
       -- to_array_types: set(data) on the raw JSON values — unhashable list/dict items raise TypeError
       if xs.any Js.isContainer then .perr
-      else do pure (.set (dedupVals (← mapRes (parse cfg P t) xs)))   -- origin(value) after the element parse
+      else do pure (.set (dedupVals (← mapRes (parse cfg P m t) xs)))   -- origin(value) after the element parse
     | _ => .unmodelled "set from a non-array"
   | .tupleVar t, j => match j with
-    | .arr xs => do pure (.tuple (← mapRes (parse cfg P t) xs))
+    | .arr xs => do pure (.tuple (← mapRes (parse cfg P m t) xs))
     | _ => .unmodelled "tuple from a non-array"
   | .tuple ts, j => match j with
-    | .arr xs => do pure (.tuple (← parseTuple cfg P ts xs))
+    | .arr xs => do pure (.tuple (← parseTuple cfg P m ts xs))
     | _ => .unmodelled "tuple from a non-array"
   | .dict k t, j => match j with
-    | .obj kvs => do pure (.dict (← parseMapWith (parseKey P k) (parse cfg P t) kvs))
+    | .obj kvs => do pure (.dict (← parseMapWith (parseKey m P k) (parse cfg P m t) kvs))
     | _ => .unmodelled "dict from a non-object"
   | .data fs, j => match j with
-    | .obj kvs => do pure (.data (← parseFields cfg P fs kvs))   -- transform_dataclass → init_dataclass
+    -- transform_dataclass → init_dataclass: the fields are parsed under the class's own (default) options
+    | .obj kvs => do pure (.data (← parseFields cfg P fs kvs))
     | _ => .unmodelled "data class from a non-object"
-  | .optional _, _ => .unmodelled "Optional: the union stages of logical_parse (C09)"
-/-- `_parse_tuple_args`, rule.py:1892-1946: missing prefix items are an error, extra items are dropped
-(`addition` is None by default) -/
-def parseTuple (cfg : Cfg) (P : Prims) : List Ty → List Js → Res (List Val)
-  | [], _ => .ok []
+  | .optional t, j => match j with
+    | .null => .ok .none                                    -- stage 1: type(value) == NoneType
+    | _ =>
+      -- per stage, the arguments of Union[T, None] in order; a stage runs only when it is stricter than the
+      -- current preferences, the last one under the current preferences
+      match m with
+      | .strict => orElse (parse cfg P .strict t j) fun _ => toNull .strict j
+      | .noloss => orElse (parse cfg P .strict t j) fun _ => orElse (toNull .strict j) fun _ =>
+          orElse (parse cfg P .noloss t j) fun _ => toNull .noloss j
+      | .lenient => orElse (parse cfg P .strict t j) fun _ => orElse (toNull .strict j) fun _ =>
+          orElse (parse cfg P .noloss t j) fun _ => orElse (toNull .noloss j) fun _ =>
+          orElse (parse cfg P .lenient t j) fun _ => toNull .lenient j
+/-- `_parse_tuple_args`, rule.py:1892-1946: missing prefix items are an error; extra items are dropped
+(`addition` is None by default), an error under `no_data_loss` -/
+def parseTuple (cfg : Cfg) (P : Prims) (m : Mode) : List Ty → List Js → Res (List Val)
+  | [], js => if m.noDataLoss && !js.isEmpty then .perr else .ok []
   | _ :: _, [] => .perr
   | t :: ts, j :: js => do
-    let v ← parse cfg P t j
-    let vs ← parseTuple cfg P ts js
+    let v ← parse cfg P m t j
+    let vs ← parseTuple cfg P m ts js
     pure (v :: vs)
 /-- `parse_data` for plain required fields: every declared field must be present, unknown keys are dropped -/
 def parseFields (cfg : Cfg) (P : Prims) : List (Str × Ty) → List (Str × Js) → Res (List (Str × Val))
@@ -706,7 +751,7 @@ def parseFields (cfg : Cfg) (P : Prims) : List (Str × Ty) → List (Str × Js) 
     match lookup name kvs with
     | none => .perr                                         -- AbsenceError
     | some j => do
-      let v ← parse cfg P t j
+      let v ← parse cfg P .lenient t j
       let rest ← parseFields cfg P fs kvs
       pure ((name, v) :: rest)
 end
@@ -714,7 +759,7 @@ end
 /-- `Cls.__from__(text)`: `to_dict` → `json.loads` (transform.py:347-349), then init -/
 def parseText (cfg : Cfg) (P : Prims) (fs : List (Str × Ty)) (text : Str) : Res Val :=
   match P.jsonLoads text with
-  | some j => parse cfg P (.data fs) j
+  | some j => parse cfg P .lenient (.data fs) j
   | none => .unmodelled "text that is not JSON"
 
 /-! ### the stated domain -/
@@ -805,7 +850,10 @@ def inDomain (cfg : Cfg) : Ty → Val → Bool
   | .data fs, v => match v with
     | .data vs => inDomainFields cfg fs vs && distinct (fs.map (·.1))
     | _ => false
-  | .optional _, _ => false            -- outside the modelled fragment
+  | .optional t, v =>
+    -- Optional[T] for a `T` that is not itself nullable
+    (match t with | .none | .optional _ => false | _ => true)
+      && ((match v with | .none => true | _ => false) || inDomain cfg t v)
 def inDomainTuple (cfg : Cfg) : List Ty → List Val → Bool
   | [], xs => xs.isEmpty
   | t :: ts, xs => match xs with
@@ -818,13 +866,17 @@ def inDomainFields (cfg : Cfg) : List (Str × Ty) → List (Str × Val) → Bool
     | [] => false
 end
 
+/-- values of this type are written as a JSON array / object -/
+def Ty.arrivesAsContainer : Ty → Bool
+  | .list _ | .set _ | .tuple _ | .tupleVar _ | .dict _ _ | .data _ => true
+  | .optional t => t.arrivesAsContainer
+  | _ => false
+
 mutual
 /-- `KnownDefect`: a set whose elements are written as JSON arrays/objects (`Set[Tuple[...]]`):
 `set(data)` is applied to the raw JSON lists first (transform.py:260-261) and raises "unhashable" -/
 def Ty.setOfContainers : Ty → Bool
-  | .set t => (match t with
-      | .list _ | .set _ | .tuple _ | .tupleVar _ | .dict _ _ | .data _ => true
-      | _ => false) || t.setOfContainers
+  | .set t => t.arrivesAsContainer || t.setOfContainers
   | .list t => t.setOfContainers
   | .tupleVar t => t.setOfContainers
   | .tuple ts => setOfContainersList ts
@@ -880,8 +932,6 @@ end
 /-! ### laws of the builtins (hypotheses of the theorems; audited against CPython on every run;
 satisfied by the concrete instance `P0`, Lemmas/C14P0.lean) -/
 
-def midnight : Clock := ⟨0, 0, 0, 0⟩
-
 /-- the `strptime` format that reads `datetime.isoformat()` back (without the offset) -/
 def isoFmt (c : Clock) : Str :=
   if c.us != 0 then "%Y-%m-%dT%H:%M:%S.%f".toList else "%Y-%m-%dT%H:%M:%S".toList
@@ -936,7 +986,7 @@ structure PrimLaws (P : Prims) : Prop where
   dec_float : ∀ (neg : Bool) (c : Nat) (e : Int), c < 10 ^ 15 → jsUnsafe c e = false → decTiny c e = false →
     (P.floatOfDec (.fin neg c e)).isFinite = true
     ∧ (P.floatOfDec (.fin neg c e)).isZero = (c == 0)
-    ∧ (c ≠ 0 → (P.decOfFloat (P.floatOfDec (.fin neg c e))).canon = (Dec.fin neg c e).canon)
+    ∧ (P.decOfFloat (P.floatOfDec (.fin neg c e))).canon = (Dec.fin neg c e).canon
   /-- `Decimal(str(d))` is `d`; `str(d)` is non-empty and has no surrounding whitespace -/
   dec_str : ∀ d : Dec, P.decOfStr (P.decStr d) = some d
   dec_str_clean : ∀ d : Dec, strip (P.decStr d) = P.decStr d ∧ P.decStr d ≠ []
